@@ -336,6 +336,162 @@ theorem streaming_dynamic_chunks_have_one_schema (n : Nat) (ds : List BDoc) :
   obtain ⟨chs, cur, g⟩ := this ds _ [] [] g0
   exact ⟨chs, cur, g.written, g.pending, g.one, oneKey_of_key g.key⟩
 
+/-! ### the same for the (non-streaming) dynamic collector: one batch per schema run -/
+
+/-- all documents of a list have the same hash input (the dynamic collector compares the hash only) -/
+def OneHash (g : List BDoc) : Prop := ∃ k, ∀ d ∈ g, (schemaKey d).1 = k
+
+/-- ghost invariant of the dynamic collector: batch `i` holds exactly the value rows of group `i`, every
+group has one hash input, and the last group has the collector's current one -/
+structure GD (c : Dynamic) (groups : List (List BDoc)) : Prop where
+  pos : 1 ≤ c.maxSamples
+  rows : c.chunks.map Batch.samples = groups.map (·.map valsOf)
+  inv : ∀ b ∈ c.chunks, b.Inv ∧ b.maxSamples = c.maxSamples
+  one : ∀ g ∈ groups, OneHash g
+  last : ∀ h, c.hash = some h → ∀ g, groups.getLast? = some g → ∀ d ∈ g, (schemaKey d).1 = h.1
+  fresh : c.hash = none → c.chunks = [Batch.new c.maxSamples] ∧ groups = [[]]
+
+theorem map_eq_concat {α β γ : Type} (f : α → γ) (g : β → γ) (init : List α) (last : α) (l : List β)
+    (h : (init ++ [last]).map f = l.map g) :
+    ∃ linit llast, l = linit ++ [llast] ∧ init.map f = linit.map g ∧ f last = g llast := by
+  have hl : l.length = init.length + 1 := by
+    have := congrArg List.length h; simp at this; omega
+  rcases List.eq_nil_or_concat l with h0 | ⟨li, x, hx⟩
+  · rw [h0] at hl; simp at hl
+  · have hx' : l = li ++ [x] := by simpa using hx
+    subst hx'
+    simp only [List.map_append, List.map_cons, List.map_nil] at h
+    have hlen : (init.map f).length = (li.map g).length := by
+      simp at hl ⊢; omega
+    obtain ⟨e1, e2⟩ := List.append_inj h hlen
+    exact ⟨li, x, rfl, e1, by simpa using e2⟩
+
+theorem batch_new_samples (n : Nat) : (Batch.new n).samples = [] := by
+  simp [Batch.new, Batch.samples, Better.samples]
+
+theorem batch_fresh_add (n : Nat) (hn : 1 ≤ n) (d : BDoc) :
+    ((Batch.new n).add d).2 = .ok ∧ ((Batch.new n).add d).1.samples = [valsOf d] ∧
+    ((Batch.new n).add d).1.Inv ∧ ((Batch.new n).add d).1.maxSamples = n := by
+  have hi := Batch.new_inv n hn
+  have hok : ((Batch.new n).add d).2 = .ok := by
+    have h0 : ¬ (0 ≥ n) := by omega
+    simp [Batch.new, Batch.add, Better.info, Better.add, h0]
+  refine ⟨hok, ?_, Batch.add_inv _ d hi, ?_⟩
+  · rw [Batch.add_ok_appends _ d hi hok, batch_new_samples]; rfl
+  · unfold Batch.add Batch.new; simp; split <;> rfl
+
+theorem batch_add_maxSamples (b : Batch) (d : BDoc) : (b.add d).1.maxSamples = b.maxSamples := by
+  unfold Batch.add
+  split
+  · rfl
+  · split <;> rfl
+
+theorem gd_step (c : Dynamic) (groups : List (List BDoc)) (d : BDoc) (g : GD c groups) :
+    ∃ groups', GD (c.add d).1 groups' := by
+  unfold Dynamic.add
+  cases hh : c.hash with
+  | none =>
+    obtain ⟨hc, hg⟩ := g.fresh hh
+    dsimp only
+    rw [hc]
+    dsimp only
+    obtain ⟨f1, f2, f3, f4⟩ := batch_fresh_add c.maxSamples g.pos d
+    refine ⟨[[d]], ⟨g.pos, by simp [f2], ?_, ?_, ?_, by intro h; simp at h⟩⟩
+    · intro b hb; simp at hb; subst hb; exact ⟨f3, f4⟩
+    · intro x hx; simp at hx; subst hx; exact ⟨(schemaKey d).1, by simp⟩
+    · intro h hh' x hx y hy
+      simp at hh' hx; subst hx; subst hh'; simp at hy; subst hy; rfl
+  | some hsh =>
+    dsimp only
+    by_cases hk : hsh.1 = (schemaKey d).1
+    · rw [if_pos hk]
+      -- the sample goes to the last batch
+      rcases List.eq_nil_or_concat c.chunks with h0 | ⟨init, lastB, hx⟩
+      · -- no batch at all (unreachable): the collector is returned unchanged
+        simp only [h0, List.getLast?_nil]
+        exact ⟨groups, g⟩
+      · have hx' : c.chunks = init ++ [lastB] := by simpa using hx
+        obtain ⟨ginit, glast, hgl, hrin, hrl⟩ := map_eq_concat Batch.samples (·.map valsOf) init lastB groups
+          (by rw [← hx']; exact g.rows)
+        have hlast : c.chunks.getLast? = some lastB := by rw [hx']; simp
+        rw [hlast]
+        dsimp only
+        have hib := (g.inv lastB (by rw [hx']; simp)).1
+        have hmb := (g.inv lastB (by rw [hx']; simp)).2
+        have hdrop : c.chunks.dropLast = init := by rw [hx']; simp
+        rw [hdrop]
+        by_cases hok : (lastB.add d).2 = .ok
+        · refine ⟨ginit ++ [glast ++ [d]], ⟨g.pos, ?_, ?_, ?_, ?_, by intro h; simp [hh] at h⟩⟩
+          · simp only [List.map_append, List.map_cons, List.map_nil, hrin]
+            rw [Batch.add_ok_appends _ d hib hok, hrl]; simp [valsOf]
+          · intro b hb
+            rcases List.mem_append.1 hb with h | h
+            · exact g.inv b (by rw [hx']; exact List.mem_append_left _ h)
+            · simp at h; subst h; exact ⟨Batch.add_inv _ d hib, by rw [batch_add_maxSamples]; exact hmb⟩
+          · intro x hx2
+            rcases List.mem_append.1 hx2 with h | h
+            · exact g.one x (by rw [hgl]; exact List.mem_append_left _ h)
+            · simp at h; subst h
+              refine ⟨hsh.1, ?_⟩
+              intro y hy
+              rcases List.mem_append.1 hy with h2 | h2
+              · exact g.last hsh hh glast (by rw [hgl]; simp) y h2
+              · simp at h2; subst h2; exact hk.symm
+          · intro h hh' x hx2 y hy
+            simp only [hh] at hh'
+            simp only [Option.some.injEq] at hh'; subst hh'
+            simp at hx2; subst hx2
+            rcases List.mem_append.1 hy with h2 | h2
+            · exact g.last hsh hh glast (by rw [hgl]; simp) y h2
+            · simp at h2; subst h2; exact hk.symm
+        · have hnoop := Batch.add_rejected_noop lastB d hib hok
+          refine ⟨groups, ⟨g.pos, ?_, ?_, g.one, ?_, by intro h; simp [hh] at h⟩⟩
+          · simp only [hnoop]; rw [← hx']; exact g.rows
+          · intro b hb; simp only [hnoop] at hb; rw [← hx'] at hb; exact g.inv b hb
+          · intro h hh' x hx2 y hy
+            simp only [hh] at hh'
+            simp only [Option.some.injEq] at hh'; subst hh'
+            exact g.last hsh hh x hx2 y hy
+    · rw [if_neg hk]
+      dsimp only
+      obtain ⟨f1, f2, f3, f4⟩ := batch_fresh_add c.maxSamples g.pos d
+      refine ⟨groups ++ [[d]], ⟨g.pos, ?_, ?_, ?_, ?_, by intro h; simp at h⟩⟩
+      · simp only [List.map_append, List.map_cons, List.map_nil, g.rows, f2]
+      · intro b hb
+        rcases List.mem_append.1 hb with h | h
+        · exact g.inv b h
+        · simp at h; subst h; exact ⟨f3, f4⟩
+      · intro x hx
+        rcases List.mem_append.1 hx with h | h
+        · exact g.one x h
+        · simp at h; subst h; exact ⟨(schemaKey d).1, by simp⟩
+      · intro h hh' x hx y hy
+        simp only [Option.some.injEq] at hh'; subst hh'
+        simp at hx; subst hx; simp at hy; subst hy; rfl
+
+/-- **Over every history of `Add`s no batch of the dynamic collector mixes two schemas**: batch `i`
+holds exactly the value rows of a list of documents that all have one hash input. -/
+theorem dynamic_batches_have_one_schema (n : Nat) (hn : 1 ≤ n) (ds : List BDoc) :
+    ∃ groups : List (List BDoc),
+      let c := ds.foldl (fun (c : Dynamic) d => (c.add d).1) (Dynamic.new n)
+      c.chunks.map Batch.samples = groups.map (·.map valsOf) ∧ ∀ g ∈ groups, OneHash g := by
+  have : ∀ (ds : List BDoc) (c : Dynamic) (groups : List (List BDoc)), GD c groups →
+      ∃ groups', GD (ds.foldl (fun (c : Dynamic) d => (c.add d).1) c) groups' := by
+    intro ds
+    induction ds with
+    | nil => intro c groups g; exact ⟨groups, g⟩
+    | cons d ds ih =>
+      intro c groups g
+      obtain ⟨groups', g'⟩ := gd_step c groups d g
+      exact ih _ groups' g'
+  have g0 : GD (Dynamic.new n) [[]] :=
+    ⟨hn, by simp [Dynamic.new, batch_new_samples], by
+      intro b hb; simp [Dynamic.new] at hb; subst hb; exact ⟨Batch.new_inv n hn, rfl⟩,
+     by intro g hg; simp at hg; subst hg; exact ⟨[], by simp⟩,
+     by intro h hh; simp [Dynamic.new] at hh, fun _ => ⟨rfl, rfl⟩⟩
+  obtain ⟨groups, g⟩ := this ds _ [[]] g0
+  exact ⟨groups, g.rows, g.one⟩
+
 /-! non-vacuity -/
 example : NulFree (.cons [97] (.doc (.cons [98] (.int64 1#64) .nil)) (.cons [99] (.int64 2#64) .nil)) := by
   simp [NulFree, NulFreeVal]
